@@ -1,3 +1,4 @@
 import TinyFlux.Audit.Tool
 import TinyFlux.Props.C05
+import TinyFlux.Props.C05State
 #audit TinyFlux.Props.C05
